@@ -194,6 +194,8 @@ class Terms:
             return ('struct', path_s(e['path'])) + tuple((f['member'], T(f['expr'])) for f in e['fields'])
         if k == 'Closure':
             return ('closure', e['_ctx_entry']['id'] if '_ctx_entry' in e else e['l'])
+        if k in ('Return', 'Break', 'Continue'):
+            return ('never',)
         if k == 'Unsafe':
             return self.block_value_term(e['block'], depth + 1)
         return ('opaque', es(e))
@@ -219,6 +221,10 @@ class Terms:
         last = stmts[-1]
         if last['k'] == 'Expr' and not last['semi']:
             return self.value_in_recorded_scope(last['expr'], depth)
+        if last['k'] == 'Expr' and last['expr']['k'] in ('Return', 'Break', 'Continue'):
+            return ('never',)
+        if last['k'] == 'Expr' and last['expr']['k'] == 'Macro' and last['expr']['mac']['name'].split('::')[-1] in ('unreachable', 'panic', 'todo', 'unimplemented'):
+            return ('never',)
         return ('unit',)
 
     # -- bindings ------------------------------------------------------------------------
@@ -240,7 +246,7 @@ class Terms:
             if d.ppath:
                 base = self.term(d.src['expr'], d.src['scope'], depth + 1) if d.src else ('opaque', d.name)
                 return self.project(base, d.ppath, d, depth)
-            if d.assigns or d.init is None:
+            if d.assigns or d.init is None or (d.mutable and self.is_mutated_container(d)):
                 return ('var', d.id, d.name)
             return self._let_init_term(d, depth)
         if d.kind == 'closure_param':
@@ -252,6 +258,26 @@ class Terms:
             base = self.term(d.src['expr'], d.src['scope'], depth + 1)
             return self.project(base, d.ppath, d, depth)
         return ('def', d.id, d.name)
+
+    def is_mutated_container(self, d):
+        """`let mut x = <constructor>` that is later mutated through methods (push/insert/extend/...)"""
+        if not hasattr(self, '_mutated'):
+            self._mutated = set()
+            for ev in self.fw.events:
+                if ev.kind == 'mcall' and ev.method in ('push', 'insert', 'extend', 'push_str', 'insert_str', 'remove', 'clear',
+                                                         'push_back', 'append', 'entry', 'get_mut', 'make_where_clause', 'retain'):
+                    r = strip_refs(ev.recv)
+                    if r['k'] == 'Path' and len(r['path']['segs']) == 1:
+                        dd = ev.scope.lookup(r['path']['s'])
+                        if dd is not None:
+                            self._mutated.add(dd.id)
+        return d.id in self._mutated
+
+    def def_by_id(self, i):
+        for d in self.fw.defs:
+            if d.id == i:
+                return d
+        return None
 
     def _let_init_term(self, d, depth):
         if d.init is None:
@@ -308,6 +334,10 @@ class Terms:
         elem = None
         if base['k'] == 'Path' and len(base['path']['segs']) == 1:
             cd = src['scope'].lookup(base['path']['s'])
+            if cd is not None and cd.kind != 'let':
+                bt = self.def_term(cd, depth + 1)
+                if isinstance(bt, tuple) and bt[0] == 'var':
+                    cd = self.def_by_id(bt[1])
             if cd is not None and cd.kind == 'let':
                 ps = self.pushes().get(cd.id)
                 if ps:
